@@ -1063,10 +1063,14 @@ def _eq(val1, val2) -> float:
         pass
     if is_numeric(val1) and is_numeric(val2):
         return _numeric_distance(val1, val2)
+    # `==` did not hold, e.g., for a subclass that overrides it: an equal content
+    # must not yield the distance of an equality that holds.
     if is_string(val1) and is_string(val2):
-        return string_distance(val1, val2)
+        return max(string_distance(val1, val2), ulp(0.0))
     if is_bytes(val1) and is_bytes(val2):
-        return string_distance(val1.decode("iso-8859-1"), val2.decode("iso-8859-1"))
+        return max(
+            string_distance(val1.decode("iso-8859-1"), val2.decode("iso-8859-1")), ulp(0.0)
+        )
     return inf
 
 
@@ -1139,9 +1143,11 @@ def _in(val1, val2, *, strict: bool = False) -> float:
     Returns:
         the distance
     """
+    decided = False
     try:
         if val1 in val2:
             return 0.0
+        decided = True
     except TypeError:
         if strict:
             # The SUT executes this very test and raises before it reaches the jump:
@@ -1158,7 +1164,11 @@ def _in(val1, val2, *, strict: bool = False) -> float:
         return inf
 
     # Use the shortest distance to any element of the iterable.
-    return _guarded(lambda elem, elems: min([_eq(elem, v) for v in elems] + [inf]), val1, val2)
+    distance = _guarded(
+        lambda elem, elems: min([_eq(elem, v) for v in elems] + [inf]), val1, val2
+    )
+    # The membership test itself decides, e.g., a `__contains__` that disagrees with `__iter__`.
+    return max(distance, ulp(0.0)) if decided else distance
 
 
 def _nin(val1, val2, *, strict: bool = False) -> float:
@@ -1451,11 +1461,11 @@ class ExecutionTracer(AbstractExecutionTracer):  # noqa: PLR0904
             # Might be necessary when using Proxies.
             value = tt.unwrap(value)
             if value:
-                if isinstance(value, Sized):
+                if isinstance(value, Sized) and (size := len(value)) > 0:
                     # Sized instances evaluate to False if they are empty,
                     # and to True otherwise, thus we can use their size as a distance
-                    # measurement.
-                    distance_false = len(value)
+                    # measurement; unless `__bool__` decides (true although empty).
+                    distance_false = size
                 elif is_numeric(value):
                     # For numeric value, we can use their absolute value
                     distance_false = _numeric_distance(value, 0)
